@@ -37,6 +37,7 @@ class Ctx:
         self.floors = {}        # rule -> (count, floor)
         self.bodies_read = set()
         self.rule_docs = {}
+        self.extra = {}
 
     # ---- rule bookkeeping
     def rule(self, rid, doc):
@@ -143,6 +144,7 @@ def finish(ctx, t0, seed, extract_info, explanation, not_decided, assumptions):
             'informational': ctx.notes[:60],
             'known_findings_matched': [f.key for f in ctx.findings if f.key in known_keys],
             'exhaustive': False,
+            'thorough': getattr(ctx, 'extra', {}),
         },
         'assumptions': assumptions,
         'wall_s': round(time.time() - t0, 3),
